@@ -394,36 +394,7 @@ def r_state(ctx):
     allowed_rng = {'dsw.spiderweb.create_random_shuffles', 'dsw.graphized.approximate_capacity'}
     for fq in sorted(ctx.p.funcs):
         f = ctx.p.func(fq)
-        bad = []
-        for n in ast.walk(f.node):
-            if isinstance(n, (ast.Global, ast.Nonlocal)):
-                bad.append((n.lineno, 'global/nonlocal %s' % n.names))
-        for nd in f.nodes:
-            for r in ctx.roots(nd):
-                pass
-            st = nd.stmt
-            tgts = []
-            if isinstance(st, ast.Assign):
-                tgts = st.targets
-            elif isinstance(st, (ast.AugAssign, ast.AnnAssign)):
-                tgts = [st.target]
-            elif isinstance(st, ast.Delete):
-                tgts = st.targets
-            for t in tgts:
-                for s in ast.walk(t):
-                    if isinstance(s, (ast.Subscript, ast.Attribute)) and isinstance(s.ctx, (ast.Store, ast.Del)):
-                        b = base_name(s)
-                        if b is not None and b not in f.locals:
-                            bad.append((nd.lineno, 'store into module-level object %s' % ast.unparse(s)))
-            for r in ctx.roots(nd):
-                for c in ast.walk(r):
-                    if isinstance(c, ast.Call) and isinstance(c.func, ast.Attribute) and c.func.attr in MUTATING_METHODS:
-                        b = base_name(c.func.value)
-                        if b is not None and b not in f.locals and b in f.module.globals:
-                            bad.append((nd.lineno, 'mutating call on module-level object %s' % ast.unparse(c.func)))
-        for p, d in f.defaults.items():
-            if not _immutable_default(d):
-                bad.append((f.node.lineno, 'mutable default %s=%s' % (p, ast.unparse(d))))
+        bad = state_violations(ctx, f)
         run.check(not bad, 'R-STATE', f, 'no-module-state', bad[0][0] if bad else f.node.lineno,
                   'no global state, immutable defaults',
                   '%s keeps state across calls: %s' % (f.name, '; '.join(b[1] for b in bad)),
@@ -454,6 +425,85 @@ def r_state(ctx):
             run.check(ok, 'R-STATE', m.name + '.<module>', 'module-global:%s' % name, getattr(v, 'lineno', 0),
                       'immutable module-level value', 'module-level mutable object %s = %s can carry state between calls'
                       % (name, ast.unparse(v)[:60]), inputs='any two calls in one process', nontrivial=False)
+
+
+CACHE_DECORATORS = {'lru_cache', 'cache', 'cached_property', 'memoize', 'memoized'}
+
+
+def state_violations(ctx, f):
+    """constructs that let a call's result depend on earlier calls: [(line, text)]"""
+    bad = []
+    for n in ast.walk(f.node):
+        if isinstance(n, (ast.Global, ast.Nonlocal)):
+            bad.append((n.lineno, 'global/nonlocal %s' % n.names))
+    for dec in f.node.decorator_list:
+        d = dec.func if isinstance(dec, ast.Call) else dec
+        name = d.id if isinstance(d, ast.Name) else (d.attr if isinstance(d, ast.Attribute) else '')
+        if name in CACHE_DECORATORS:
+            bad.append((dec.lineno, 'memoising decorator @%s: results (and any mutable object returned) are shared between '
+                                    'calls' % name))
+    for nd in f.nodes:
+        st = nd.stmt
+        tgts = []
+        if isinstance(st, ast.Assign):
+            tgts = st.targets
+        elif isinstance(st, (ast.AugAssign, ast.AnnAssign)):
+            tgts = [st.target]
+        elif isinstance(st, ast.Delete):
+            tgts = st.targets
+        for t in tgts:
+            for s_ in ast.walk(t):
+                if isinstance(s_, (ast.Subscript, ast.Attribute)) and isinstance(s_.ctx, (ast.Store, ast.Del)):
+                    b = base_name(s_)
+                    if b is not None and b not in f.locals:
+                        bad.append((nd.lineno, 'store into module-level object %s' % ast.unparse(s_)))
+        for r in ctx.roots(nd):
+            for c in ast.walk(r):
+                if isinstance(c, ast.Call) and isinstance(c.func, ast.Attribute) and c.func.attr in MUTATING_METHODS:
+                    b = base_name(c.func.value)
+                    if b is not None and b not in f.locals and b in f.module.globals:
+                        bad.append((nd.lineno, 'mutating call on module-level object %s' % ast.unparse(c.func)))
+                if isinstance(c, ast.Name) and isinstance(c.ctx, ast.Load) and c.id not in f.locals \
+                        and c.id in f.module.globals and not _immutable_default(f.module.globals[c.id]):
+                    bad.append((nd.lineno, 'reads the module-level mutable object %s' % c.id))
+                if isinstance(c, ast.Attribute) and isinstance(c.ctx, ast.Store) and isinstance(c.value, ast.Name) \
+                        and c.value.id in f.module.funcs:
+                    bad.append((nd.lineno, 'function attribute store %s' % ast.unparse(c)))
+    for p, d in f.defaults.items():
+        if not _immutable_default(d):
+            bad.append((f.node.lineno, 'mutable default %s=%s' % (p, ast.unparse(d))))
+    # de-duplicate
+    seen, out = set(), []
+    for b in bad:
+        if b not in seen:
+            seen.add(b)
+            out.append(b)
+    return out
+
+
+def r_state_closure(ctx, *entries):
+    """history independence of everything the given entry points call"""
+    run = ctx.run
+    run.rule('R-STATE', "no function in the closure of the property's entry points keeps state between calls: no "
+                        "global/nonlocal, no store into / mutation of / read of a mutable module-level object, no "
+                        "memoising decorator, no mutable default, no function attribute; the global numpy generator is "
+                        "touched only by the two randomised calls")
+    allowed_rng = {'dsw.spiderweb.create_random_shuffles', 'dsw.graphized.approximate_capacity'}
+    clo = ctx.closure(*entries)
+    for fq in sorted(clo):
+        f = ctx.p.func(fq)
+        bad = state_violations(ctx, f)
+        run.check(not bad, 'R-STATE', f, 'no-module-state', bad[0][0] if bad else f.node.lineno,
+                  'no state survives a call',
+                  '%s keeps state across calls, so its result depends on the call history, not only on its arguments: %s'
+                  % (f.name, '; '.join('line %d: %s' % b for b in bad[:3])),
+                  inputs='a sequence of calls sharing (or re-using the identity of) an argument', nontrivial=False)
+        rng = [(nd, q) for nd, c, callee, q in ctx.calls()[fq] if q and (q.startswith('numpy.random') or q.startswith('random.'))]
+        if rng and fq not in allowed_rng:
+            run.refute('R-STATE', f, 'rng-confined', rng[0][0].lineno,
+                       '%s draws from / reseeds the global numpy generator (%s)' % (f.name, rng[0][1]),
+                       inputs='any history of calls')
+    return clo
 
 
 def _immutable_default(d):
@@ -574,7 +624,8 @@ def _is_set_expr(v):
 
 
 # ----------------------------------------------------------------------------------------------
-PURE_IN_VERBOSE = {'str', 'round', 'sum', 'len', 'max', 'min', 'int', 'float', 'number_to_dna', 'repr', 'abs', 'print'}
+PURE_IN_VERBOSE = {'str', 'round', 'sum', 'len', 'max', 'min', 'int', 'float', 'number_to_dna', 'repr', 'abs', 'print',
+                   'sorted', 'list', 'tuple', 'set', 'dict', 'join', 'format', 'bool', 'divmod', 'enumerate', 'zip', 'range'}
 
 
 def r_verb(ctx, floor_funcs=0):
@@ -731,6 +782,23 @@ def r_monitor(ctx):
     run.check(not raises, 'R-VERB', f, 'monitor:no-explicit-raise', raises[0].lineno if raises else f.node.lineno,
               'the progress monitor never raises explicitly', 'Monitor.__call__ raises at line %s' % (raises[0].lineno if raises else ''),
               inputs='verbose=True', nontrivial=False)
+    # a division by a state argument that call sites can pass as 0 needs a dominating early return on == 0
+    # (total_state is positive at every call site: a length inside a loop over that collection, or 4^k; assumed)
+    dom = f.dominators()
+    for nd, s in ctx.all_subterms(f):
+        if s[0] == 'bin' and s[1] in ('/', '//', '%') and s[3] == ('v', 'current_state', 'P'):
+            guards = []
+            for g in f.stmts(ast.Return):
+                for atom, pol in ctx.conds(f, g):
+                    if pol and atom[0] == 'cmp' and atom[1] == '==' and atom[2] == ('v', 'current_state', 'P') and atom[3] == ('c', 0):
+                        guards.append(g.conds[-1][2])
+            ok = any(gid in dom[nd.id] for gid in guards)
+            run.check(ok, 'R-VERB', f, 'monitor:division-by-current_state-guarded', nd.lineno,
+                      'the division by current_state is dominated by the early return on current_state == 0',
+                      "Monitor.__call__ divides by current_state without a dominating `current_state == 0` early return: "
+                      "encode(verbose=True) calls monitor(total - len(quotient), total) with a first argument of 0 whenever a "
+                      "division keeps the digit count, and raises ZeroDivisionError", inputs='verbose=True, messages such as 2, 20, 200')
+            break
     rets = [nd for nd in f.stmts(ast.Return) if nd.stmt.value is not None]
     run.check(not rets, 'R-VERB', f, 'monitor:returns-nothing', rets[0].lineno if rets else f.node.lineno,
               'the progress monitor returns nothing', 'Monitor.__call__ returns a value', nontrivial=False)
